@@ -268,7 +268,12 @@ impl Request {
         while r.consume("\r\n").is_none() {
             let key_bytes = r.read_while(|b| b != &b':');
             r.consume(": ").ok_or_else(Response::BadRequest)?;
-            let value = CowSlice::Ref(Slice::from_bytes(r.read_while(|b| b != &b'\r')));
+            let value = r.read_while(|b| b != &b'\r');
+            /* the accessors hand out `&str`s */
+            if std::str::from_utf8(key_bytes).is_err() || std::str::from_utf8(value).is_err() {
+                return Err((|| Response::BadRequest())())
+            }
+            let value = CowSlice::Ref(Slice::from_bytes(value));
             r.consume("\r\n").ok_or_else(Response::BadRequest)?;
 
             if let Some(key) = RequestHeader::from_bytes(key_bytes) {
